@@ -7,6 +7,7 @@ package c17
 import (
 	"fmt"
 	"math/big"
+	"reflect"
 	"testing"
 	"time"
 
@@ -16,6 +17,7 @@ import (
 	rhp4 "go.sia.tech/core/rhp/v4"
 	"go.sia.tech/core/types"
 	"pgregory.net/rapid"
+	"verif/harness/gen"
 	"verif/harness/stats"
 )
 
@@ -247,6 +249,11 @@ func checkV1(c V1Case) error {
 	if err := checkPayout("form", fc); err != nil {
 		return err
 	}
+	// the constructed contract owns its lists: a payment edits the valid and then the missed outputs in place, so two
+	// lists sharing memory (or one list's spare capacity covering the other) would be charged twice
+	if herr := gen.AppendHazard(reflect.ValueOf(&fc).Elem()); herr != nil {
+		return failf("v1/form/shared-memory", "PrepareContractFormation: %v", herr)
+	}
 	if len(fc.ValidProofOutputs) != 2 || toBig(fc.ValidProofOutputs[0].Value).Cmp(rp) != 0 || toBig(fc.ValidProofOutputs[1].Value).Cmp(sum(cp, hcoll)) != 0 {
 		return failf("v1/form/outputs", "formation valid outputs %+v, want renter %v host %v", fc.ValidProofOutputs, rp, sum(cp, hcoll))
 	}
@@ -407,6 +414,9 @@ func checkV1(c V1Case) error {
 		stage := "renew-" + c.Renew
 		if err := checkPayout(stage, nfc); err != nil {
 			return err
+		}
+		if herr := gen.AppendHazard(reflect.ValueOf(&nfc).Elem()); herr != nil {
+			return failf("v1/"+stage+"/shared-memory", "%s: %v", stage, herr)
 		}
 		if toBig(basePrice).Cmp(wantBase) != 0 {
 			return failf("v1/"+stage+"/base-price", "%s base price %v, want %v", stage, basePrice, wantBase)
